@@ -120,7 +120,7 @@ def parse_vc(path):
                     if not m:
                         raise SystemExit(f"{path}:{ln}: bad //@subst")
                     cur.subst.append((m.group(1).replace('\\"', '"'), m.group(2).replace('\\"', '"'), (m.group(3) or "#N?") + ("*" if allflag else "") + ("?" if word == "subst?" else "")))
-                elif word in ("sig", "loop", "closure", "before", "after", "wraptail", "armstart", "armend", "bodystart"):
+                elif word in ("sig", "loop", "closure", "before", "after", "wraptail", "armstart", "armend", "bodystart", "tryproof"):
                     blk = Block(word, rest, path, ln)
                     cur.blocks.append(blk)
                 else:
@@ -662,6 +662,19 @@ def emit_fn(out, entry, mode, stats, canary=False):
                 raise LostAnchor(f"{entry.id}: tryexpand source {snip!r} not found")
             edits.append((r_[0], r_[0], "(match ", dict(kind="gen", fn=entry.id, norm="N18")))
             edits.append((r_[1], r_[1] + 1, " { Ok(verif_ok) => verif_ok, Err(verif_err) => return Err(core::convert::From::from(verif_err)) })", dict(kind="gen", fn=entry.id, norm="N18")))
+            stats.count("N18")
+        # tryproof (N18 for identical error types): `E?` => `match E { Ok(v) => v, Err(e) => { <ghost text> return Err(e) } }`.
+        # With the same error type on both sides `?` converts with std's reflexive `impl<T> From<T> for T`, the identity;
+        # the expansion gives the ghost text a place on the error path. The name of the error value is `verif_err`.
+        for b in entry.block("tryproof"):
+            m = re.match(r'"(.*)"\s*(?:#(\d+))?$', b.arg)
+            if not m or not m.group(1).rstrip().endswith("?"):
+                raise SystemExit(f"{b.file}:{b.line}: //@tryproof needs a quoted snippet ending in ?")
+            r_ = find_snippet(sf, bo + 1, last, m.group(1).replace('\\"', '"'), int(m.group(2) or 1))
+            if r_ is None:
+                raise LostAnchor(f"{entry.id}: tryproof source {m.group(1)!r} not found")
+            edits.append((r_[0], r_[0], "(match ", dict(kind="gen", fn=entry.id, norm="N18")))
+            edits.append((r_[1], r_[1] + 1, " { Ok(verif_ok) => verif_ok, Err(verif_err) => {\n" + b.text().rstrip("\n") + "\nreturn Err(verif_err) } })", vc_origin(b)))
             stats.count("N18")
         # callrewrite (N9): `<recv>.m()` => `F(<recv>)`  (method call written as the function rustc resolves it to)
         for meth, fpath, tag in entry.callrewrite:
